@@ -223,7 +223,17 @@ func (fr *FuncRun) store(st *State, a Addr, t types.Type, v Val) {
 	case ElemOf:
 		h := w.ElemHeap(x.Elem)
 		cur := fr.heapCur(st, h)
-		fr.heapSet(st, h, sto(cur, x.Arr, sto(sel(cur, x.Arr), x.Idx, v.T)))
+		es := "(Array Int " + w.SortOf(x.Elem) + ")"
+		oldInner := fr.constFor(es, sel(cur, x.Arr), "oldinner")
+		newInner := fr.constFor(es, sto(oldInner, x.Idx, v.T), "eleminner")
+		fr.heapSet(st, h, sto(cur, x.Arr, newInner))
+		if x.Off != "" && !hasBound(x.I) {
+			j := fr.freshName("j")
+			x.Off = fr.constFor(sInt, x.Off, "off")
+			fr.assume(st, fmt.Sprintf("(forall ((%s Int)) (! (=> (not (= %s %s)) (= %s %s)) :pattern (%s)))", j, j, x.I,
+				w.At(x.Elem, newInner, x.Off, j), w.At(x.Elem, oldInner, x.Off, j), w.At(x.Elem, newInner, x.Off, j)))
+			fr.assume(st, eq(w.At(x.Elem, newInner, x.Off, x.I), v.T))
+		}
 	default:
 		panic("store: bad address")
 	}
